@@ -15,7 +15,7 @@ RULE = ('cases = well-formed chart whose guards are after(d)/idle(d) probes (d i
         'with internal transitions, self-loops and re-entry, state invariants and transition '
         'postconditions probing after/idle, fragments that log `time` and move the clock during '
         'the step (tick) + history interleaving clock advances (hitting d, d-1/4, d+1/4) with '
-        'events and steps; in 30% of the cases one step is cut short by entry code that raises '
+        'events and steps, sometimes at clock values around 2**30; in 30% of the cases one step is cut short by entry code that raises '
         '(the states entered before it count as entered at that time). The model keeps entered_at / fired_at per state from the returned '
         'steps: every probe evaluation must equal T-entered_at>=d resp. T-fired_at>=d; '
         'MacroStep.time, the time seen by all code, the step-started meta-event and '
@@ -62,6 +62,10 @@ def strategy(tier):
             else:
                 ops.append(['step'])
         ops.append(['step'])
+        if draw(st.integers(0, 5)) == 0:
+            # epoch-like clock values (2**30 + small dyadic fractions: still exact): before the
+            # initial step, or right after it
+            ops.insert(draw(st.sampled_from([0, 1])), ['adv', 2.0 ** 30])
         # shadow: a second interpreter over the same Statechart object is stepped in between, on
         # its own clock; it must not influence the first one
         # faults: in the given step the k-th entry code executed raises at its end (the states
